@@ -1,3 +1,4 @@
+import RxnModel.Generated.Facts
 import RxnModel.Proofs.Publish
 /-!
 # C13 — restart resumes from the newest completed checkpoint; retention keeps it
@@ -110,18 +111,17 @@ theorem oldLock_counterexample :
     ((lockUpdate p0 2).1.current = some 3 ∧ (lockUpdate p0 2).1.removes = [] ∧ (lockUpdate p0 2).1.notifs = []) := by
   decide
 
-/- FULL STATEMENT (false on the code, D54): the retained-ids notifications the job receives name strictly
-increasing ids — "telling operators what to retain never names an older one as the only one to keep".
-Every notification is sent from its own goroutine, so an older one can be received after a newer one
-(`notifications_reordered_counterexample`). What holds: -/
-/-- PARTIAL: as long as the started notification goroutines got their sends through in start order
-(`Pub.fifo`), the delivered notifications name strictly increasing ids (across restarts as well). -/
-theorem notifications_increase_partial (files0 : List Nat) (as : List Act) (s : Sys) (obs : List Obs)
-    (h : run (init files0) as = some (s, obs)) (hf : s.pub.fifo = true) : s.pub.delivered.Pairwise (· < ·) :=
-  (List.pairwise_append.mp ((run_inv as (inv_init files0) h).notifSorted hf)).1
+/-- The retained-ids notifications the job receives name strictly increasing ids (across restarts as well):
+"telling operators what to retain never names an older one as the only one to keep". Holds because the
+notifications are queued under the lock and sent by the single `announceRetained` goroutine (D54 repair;
+`announcer_shape`). -/
+theorem notifications_increase (files0 : List Nat) (as : List Act) (s : Sys) (obs : List Obs)
+    (h : run (init files0) as = some (s, obs)) : s.pub.delivered.Pairwise (· < ·) := by
+  have hi := run_inv as (inv_init files0) h
+  exact (List.pairwise_append.mp (hi.notifSorted hi.fifoTrue)).1
 
-/-- Unconditionally (any delivery order): the notifications are *decided* in strictly increasing order, and
-every id ever announced or queued is a persisted checkpoint not newer than the current one. -/
+/-- the notifications are decided in strictly increasing order, and every id ever announced or queued is a
+persisted checkpoint not newer than the current one -/
 theorem notifications_sound (files0 : List Nat) (as : List Act) (s : Sys) (obs : List Obs)
     (h : run (init files0) as = some (s, obs)) :
     s.pub.notifs.flatten.Pairwise (· < ·) ∧
@@ -129,16 +129,33 @@ theorem notifications_sound (files0 : List Nat) (as : List Act) (s : Sys) (obs :
   have hi := run_inv as (inv_init files0) h
   exact ⟨hi.queueSorted, fun k hk => ⟨hi.notifWr k hk, hi.notifLe k hk⟩⟩
 
-/-- D54 (open): checkpoints 2 and 3 are published in order, both notification goroutines are started, and the
-one for `[3]` gets its send through first: the job receives `[3]` and then `[2]` — after checkpoint 3 has been
-announced the operators are told to keep only checkpoint 2. -/
+/-- the regenerated shape of the announcer: the channel send happens only in `announceRetained`, the queue is
+appended to only inside the `stateMu` section of `finishSnapshotAsync`, the goroutine is started only there and
+only when none is running, and `announceRetained` dequeues under the lock -/
+theorem announcer_shape : Facts.c13SingleAnnouncer = 1 := by decide
+
+/-- D54 (repaired): with the old rule — a goroutine per notification, any started one may get its send through
+(`deliverAt s k`) — checkpoints 2 and 3 published in order could be announced as `[3]` then `[2]`: after 3 was
+announced the operators were told to keep only checkpoint 2. The single announcer delivers `[2]` then `[3]`. -/
 theorem notifications_reordered_counterexample :
-    (run (init [])
+    let pre : List Act :=
       [.call (.create [1] [1]), .call (.opAck 1 1 0), .call (.srAck 1 1 []), .write 1, .lock 1,
        .call (.create [1] [1]), .call (.opAck 1 2 0), .call (.srAck 1 2 []), .write 2, .lock 2,
-       .call (.create [1] [1]), .call (.opAck 1 3 0), .call (.srAck 1 3 []), .write 3, .lock 3,
-       .deliver 1, .deliver 0]).map (fun r => (r.1.pub.delivered, r.1.pub.current))
-    = some ([3, 2], some 3) := by decide
+       .call (.create [1] [1]), .call (.opAck 1 3 0), .call (.srAck 1 3 []), .write 3, .lock 3]
+    (((run (init []) pre).bind (fun r => deliverAt r.1 1)).bind (fun r => deliverAt r.1 0)).map
+        (fun r => r.1.pub.delivered) = some [3, 2] ∧
+    (run (init []) (pre ++ [.deliver, .deliver])).map (fun r => r.1.pub.delivered) = some [2, 3] := by decide
+
+/-- the leftover of a crash inside `LocalDirectory.Write` (D60 repair: temporary file + rename) is not a
+snapshot file: its name starts with `.`, so `checkpointIDFromFilePath` rejects it whatever follows -/
+theorem tmp_name_ignored (id : Nat) (suffix : Bytes) : decodeName (tmpName id suffix) = none := by
+  simp [tmpName, decodeName, namePrefix, stripPrefix]
+
+/-- D60 (repaired): with the old `Write` (final name created first, content copied afterwards) a crash in the
+middle of the write of checkpoint 2 left its cut-off file as the newest snapshot file and `LoadCheckpoint` failed on
+it, although checkpoint 1 was complete; with the atomic write the storage holds only checkpoint 1 and it is loaded. -/
+theorem truncatedNewest_counterexample :
+    loadOldWrite [(1, true), (2, false)] = none ∧ load [1] = some 1 := by decide
 
 /-- The savepoint start mode (`LoadCheckpoint` with a savepoint URI; the job keeps the URI, so every restart of
 such a job takes this path) does NOT resume from the newest completed checkpoint: with the files of checkpoint 3
@@ -170,8 +187,8 @@ theorem current_never_regresses (files0 : List Nat) (as : List Act) (s : Sys) (o
     split at hs
     · simp only [Option.some.injEq, Prod.mk.injEq] at hs; rw [← hs.1]; exact ⟨cur, hc, Nat.le_refl _⟩
     · exact absurd hs (by simp)
-  | deliver k =>
-    simp only [step] at hs
+  | deliver =>
+    simp only [step, deliverAt] at hs
     split at hs
     · exact absurd hs (by simp)
     · simp only [Option.some.injEq, Prod.mk.injEq] at hs; rw [← hs.1]; exact ⟨cur, hc, Nat.le_refl _⟩
@@ -246,7 +263,7 @@ def demo : List Act :=
   [.call (.create [1] [1]), .call (.opAck 1 1 0), .call (.srAck 1 1 [5]), .write 1, .lock 1,
    .call (.create [1] [1]), .call (.opAck 1 2 0), .call (.srAck 1 2 [5]),
    .call (.create [1] [1]), .call (.opAck 1 3 0), .call (.srAck 1 3 [5]),
-   .write 3, .lock 3, .write 2, .lock 2, .remove [1], .deliver 0, .crash]
+   .write 3, .lock 3, .write 2, .lock 2, .remove [1], .deliver, .crash]
 
 example : (run (init []) demo).map (fun r => (r.1.pub.files, r.1.pub.completed, r.1.pub.delivered, r.1.store.cid))
     = some ([2, 3], [3], [3], 3) := by decide
